@@ -202,7 +202,7 @@ def verify_one(task):
         cm = importlib.import_module(modname)
         reg = cm.REG
         src = SourceIndex(os.environ.get("VERIF_REPO", "/repo"))
-        fnode, m, cls, path, h = src.find(q)
+        fnode, m, cls, path, h = src.find(getattr(reg.contracts.get(q), "of", None) or q)
         rec["source"] = {"file": path, "line": fnode.lineno, "end": fnode.end_lineno, "sha": h}
         ctx = Ctx(reg, q)
         eng = Engine(reg, src, ctx, namespace=vars(cm))
